@@ -59,10 +59,39 @@ impl Prop for C06 {
         "C06"
     }
     fn strategy(&self, tier: Tier) -> BoxedStrategy<Recipe> {
-        recipe_strategy(tier.pick(24_000, 60_000) as u32)
+        // second family: short chains of blocks that move data and then report a wait
+        // (resampler, delay, skip, chunker, FIR, FFT filter) or keep a remainder in their
+        // input, added in reverse data-flow order or a random one: the last samples of a run
+        // then travel one hop per pass, past blocks that have nothing else to do
+        let stage = prop_oneof![
+            4 => (1u8..5, 1u8..6).prop_map(|(i, d)| Stage::Resamp(i, d)),
+            4 => (2u16..9).prop_map(Stage::Chunk),
+            2 => prop_oneof![0u16..4, 0u16..300].prop_map(Stage::Delay),
+            2 => prop_oneof![0u16..4, 0u16..300].prop_map(Stage::Skip),
+            1 => Just(Stage::Nrzi),
+            2 => Just(Stage::ToFloat),
+            1 => any::<u8>().prop_map(Stage::XorConst),
+            2 => (crate::catalog::tapspec_strategy(6), 1u8..4).prop_map(|(t, d)| Stage::Fir(t, d)),
+            1 => crate::catalog::tapspec_strategy(6).prop_map(Stage::FftFloat),
+        ];
+        let order = prop_oneof![
+            2 => Just((0..16u16).map(|i| 60_000 - i * 1000).collect::<Vec<u16>>()),
+            1 => prop::collection::vec(any::<u16>(), 16),
+        ];
+        let tail = (
+            crate::gens::gen_strategy(tier.pick(24_000, 60_000) as u32),
+            prop::collection::vec(stage, 1..5),
+            order,
+            1u8..5,
+        )
+            .prop_map(|(src, pre, order, pages)| {
+                // (a stage that does not apply to the current sample type is skipped by the builder)
+                Recipe { src, src2: None, pre, diamond: None, post: vec![], extra_sink: 0, order, pages, src_pieces: vec![] }
+            });
+        prop_oneof![1 => recipe_strategy(tier.pick(24_000, 60_000) as u32), 1 => tail].boxed()
     }
     fn cases(&self, tier: Tier) -> u64 {
-        tier.pick(2_000, 60_000)
+        tier.pick(12_000, 120_000)
     }
     fn fixed_cases(&self, _tier: Tier) -> Vec<Recipe> {
         let mut v = Vec::new();
@@ -71,9 +100,11 @@ impl Prop for C06 {
             (vec![Stage::Resamp(3, 2)], 3),
             (vec![Stage::ToFloat, Stage::Fir(TapSpec { n: 5, kind: 3, seed: 1 }, 2)], 4),
             (vec![Stage::Delay(100), Stage::Skip(7), Stage::Nrzi], 5),
+            (vec![Stage::Delay(1), Stage::Resamp(3, 1), Stage::Chunk(4)], 5),
+            (vec![Stage::Skip(2), Stage::Chunk(3), Stage::Resamp(1, 2)], 5),
         ];
         for (pre, n) in bases {
-            for len in [100u32, 5000, 20000] {
+            for len in [4u32, 100, 5000, 20000] {
                 for order in permutations(n) {
                     v.push(Recipe {
                         src: Gen { pat: 0, len, seed: 5 },
@@ -92,7 +123,7 @@ impl Prop for C06 {
         v
     }
     fn exhaustive_subdomains(&self) -> Vec<String> {
-        vec!["add order: all permutations of four chains with 3, 3, 4 and 5 blocks, for source lengths below, around and beyond the stream capacity".into()]
+        vec!["add order: all permutations of six chains with 3, 3, 4, 5, 5 and 5 blocks (incl. two chains made only of blocks that move data and then report a wait), for source lengths 4, 100 and around and beyond the stream capacity".into()]
     }
     fn run(&self, r: &Recipe, ctx: &mut Ctx) {
         let mut a = build(r, None);
@@ -149,7 +180,7 @@ impl Prop for C06 {
         }
     }
     fn rule(&self) -> String {
-        "generated: graph recipe over the block library (VectorSource [x2 -> Xor] -> stages from {XorConst, NrziDecode, Descrambler, Delay, Skip, RationalResampler, Map u8->f32, BinarySlicer, AddConst, MultiplyConst, FirFilter(+deci), SinglePoleIirFilter, HdlcDeframer->VecToStream} -> optional diamond Tee -> two balanced branches -> Xor/Add -> stages -> 1-2 sinks incl. NullSink), source lengths 0..24k (thorough 60k) samples, stream sizes 1-4 pages, generated add order (all permutations enumerated for four small chains). Oracle: differential against the sequential reference executor (same recipe, 4 MB streams, topological round robin to quiescence): when Graph::run() returns Ok every sink holds exactly the reference sequence. Non-trivial: add order not topological, or a sink result larger than the stream capacity, or a block that reports a wait from a call in which it moved data (sinks, resampler) present; distinct = hash of the recipe.".into()
+        "generated: graph recipe over the block library (VectorSource [x2 -> Xor] -> stages from {XorConst, NrziDecode, Descrambler, Delay, Skip, RationalResampler, Map u8->f32, BinarySlicer, AddConst, MultiplyConst, FirFilter(+deci), SinglePoleIirFilter, HdlcDeframer->VecToStream} -> optional diamond Tee -> two balanced branches -> Xor/Add -> stages -> 1-2 sinks incl. NullSink), source lengths 0..24k (thorough 60k) samples, stream sizes 1-4 pages, generated add order (all permutations enumerated for six small chains); half of the generated cases come from a second family: a source and 1-4 stages biased to blocks that move data and then report a wait or keep a remainder in their input (resampler, chunker, delay, skip, FIR, FFT filter), added in exact reverse data-flow order (2/3) or a random order. Oracle: differential against the sequential reference executor (same recipe, 4 MB streams, topological round robin to quiescence): when Graph::run() returns Ok every sink holds exactly the reference sequence. Non-trivial: add order not topological, or a sink result larger than the stream capacity, or a block that reports a wait from a call in which it moved data (sinks, resampler) present; distinct = hash of the recipe.".into()
     }
     fn assumptions(&self) -> Vec<String> {
         vec![
